@@ -250,7 +250,16 @@ func (c *canceller) Preempt(ctx context.Context, req *jsonrpc.Request) (result a
 		if err := internaljson.Unmarshal(req.Params, &params); err != nil {
 			return nil, jsonrpc2.ErrNotHandled
 		}
-		id, err := jsonrpc2.MakeID(params.RequestID)
+		// Decode the ID from the raw params: CancelledParams.RequestID is an
+		// untyped value, so an integer ID above 2^53 would have been rounded to a
+		// neighbouring one (and the wrong request cancelled).
+		var rawID struct {
+			RequestID json.RawMessage `json:"requestId"`
+		}
+		if err := internaljson.Unmarshal(req.Params, &rawID); err != nil {
+			return nil, jsonrpc2.ErrNotHandled
+		}
+		id, err := jsonrpc2.DecodeID(rawID.RequestID)
 		if err != nil {
 			return nil, jsonrpc2.ErrNotHandled
 		}
